@@ -50,6 +50,21 @@ typename GT<G>::Label valueOf(long long x) {
         return weightOf(x, "int");
 }
 
+// value of a container element: as valueOf, but a multigraph entry may have multiplicity 0 (adds nothing, yet its
+// indices count for the size: "1+largest-index vertices ... equal to adding those edges one at a time")
+template <class G>
+typename GT<G>::Label ctorValueOf(long long x, StepFacts &facts) {
+    if constexpr (GT<G>::fam == 'M') {
+        if (x < 0)
+            x = -x;
+        if (x % 5 == 4) {
+            facts.tag("ctor_entry_of_multiplicity_0");
+            return 0u;
+        }
+    }
+    return valueOf<G>(x);
+}
+
 template <class G, class V>
 void addOne(G &g, unsigned i, unsigned j, const V &v) {
     typedef GT<G> T;
@@ -151,7 +166,7 @@ std::string ctorChecks(const GSpec &s, std::string &observer, StepFacts &facts) 
         auto gv = [](const LE &e) { return std::get<2>(e); };
         std::vector<LE> v;
         for (auto &e : seq)
-            v.emplace_back(e.i, e.j, valueOf<G>(e.x));
+            v.emplace_back(e.i, e.j, ctorValueOf<G>(e.x, facts));
         std::list<LE> l(v.begin(), v.end());
         std::deque<LE> d(v.begin(), v.end());
         std::forward_list<LE> f(v.begin(), v.end());
